@@ -10,8 +10,10 @@ package commands
 import (
 	"bufio"
 	"encoding/hex"
+	"encoding/json"
 	"fmt"
 	"os"
+	"sort"
 	"testing"
 
 	"github.com/tucats/ego/internal/cli/settings"
@@ -52,5 +54,58 @@ func TestVerifRouteTable(t *testing.T) {
 		}
 
 		fmt.Fprintln(w)
+	}
+}
+
+// TestVerifRealFind: VERIF_IN JSON {"builds":k,"calls":c,"reqs":[[method,path],...]} ->
+// VERIF_OUT JSON [[[status,endpoint,method],...distinct...],...per request] on the real table,
+// rebuilt `builds` times, `calls` FindRoute calls each.
+func TestVerifRealFind(t *testing.T) {
+	b, err := os.ReadFile(os.Getenv("VERIF_IN"))
+	if err != nil {
+		t.Fatal(err)
+	}
+
+	in := struct {
+		Builds, Calls int
+		Reqs          [][2]string
+	}{}
+	if err := json.Unmarshal(b, &in); err != nil {
+		t.Fatal(err)
+	}
+
+	seen := make([]map[[3]string]bool, len(in.Reqs))
+	for i := range seen {
+		seen[i] = map[[3]string]bool{}
+	}
+
+	for k := 0; k < in.Builds; k++ {
+		r := defineStaticRoutes()
+		defineNativeAdminHandlers(r)
+
+		for qi, q := range in.Reqs {
+			for c := 0; c < in.Calls; c++ {
+				rt, status := r.FindRoute(q[0], q[1], false)
+				id := rt.VerifID()
+				seen[qi][[3]string{fmt.Sprint(status), id[0], id[1]}] = true
+			}
+		}
+	}
+
+	out := [][][3]string{}
+
+	for qi := range in.Reqs {
+		l := [][3]string{}
+		for k := range seen[qi] {
+			l = append(l, k)
+		}
+
+		sort.Slice(l, func(i, j int) bool { return fmt.Sprint(l[i]) < fmt.Sprint(l[j]) })
+		out = append(out, l)
+	}
+
+	ob, _ := json.Marshal(out)
+	if err := os.WriteFile(os.Getenv("VERIF_OUT"), ob, 0o644); err != nil {
+		t.Fatal(err)
 	}
 }
